@@ -15,6 +15,7 @@ META = {
                     "plain tags that follow a group are members of no group (FIX without a message dictionary is ambiguous otherwise)"],
 }
 REQUIRED_ORACLES = ["roundtrip", "reference-parse", "seqnum"]
+REQUIRED_COUNTERS = ["dialect_protocol_cases"]
 NSHARDS = 16
 RANDOM = {"quick": 5000, "thorough": 40000}
 MODES = ["normal", "normal", "normal", "possdup", "seqreset", "raw", "dupflag-n", "dupflag-n-stale34", "stale34"]
@@ -32,6 +33,26 @@ def _env():
     codec = Codec(proto)
     tab = msggen.Table(proto.repeating_groups)
     return proto, codec, tab, FMsg, Journaler
+
+
+def _dialect_env():
+    """A venue dialect of FIX 4.4 (the table is "the protocol's", i.e. a parameter): own groups, a standard group extended by a
+    nested venue group, one standard group not used.  Built AFTER the stock codec, in the same process, same BeginString."""
+    from asyncfix import FMsg, Journaler
+    from asyncfix.codec import Codec
+    from asyncfix.protocol import FIXProtocol44
+    g = {str(getattr(k, "value", k)): [str(getattr(m, "value", m)) for m in v] for k, v in FIXProtocol44.repeating_groups.items()}
+    g["20010"] = ["20011", "20012", "20013"]
+    g["20013"] = ["20014", "20015"]
+    g["453"] = g["453"] + ["20020"]
+    g["20020"] = ["20021", "20022"]
+    del g["576"]
+
+    class VenueDialect44(FIXProtocol44):
+        repeating_groups = g
+    proto = VenueDialect44()
+    codec = Codec(proto)
+    return proto, codec, msggen.Table(g), FMsg, Journaler
 
 
 def enumerated(tab):
@@ -248,6 +269,18 @@ def run_shard(spec, acc):
         body = [("11", "id1"), (k, items)] + ([("58", "tail")] if "58" not in tab.members_any else [])
         run_case(acc, env, body, FMsg.NEWORDERSINGLE, "normal", 7, 0, cid, None)
     acc.add("enumerated_group_cases_total", len([1 for i in range(len(en)) if i % nsh == shard]))
+    denv = _dialect_env()
+    dtab = denv[2]
+    for i, (k, n, opt) in enumerate(enumerated(dtab)):
+        if i % nsh != shard or not ({k} | dtab.desc[k]) & {"20010", "20013", "20020"}:
+            continue
+        cid = f"enum-dialect:{i}"
+        if not acc.want(cid):
+            continue
+        rnd = random.Random(f"{spec['seed']}:C01:enum-dialect:{i}")
+        items = msggen.gen_items(rnd, dtab, k, 3, "ascii", opt, nitems=n)
+        run_case(acc, denv, [("11", "id1"), (k, items), ("58", "tail")], FMsg.NEWORDERSINGLE, "normal", 7, 0, cid, None)
+        acc.add("dialect_protocol_cases")
     # random part
     for c in range(spec["n"]):
         cid = f"rand:{shard}:{c}"
@@ -256,8 +289,12 @@ def run_shard(spec, acc):
         rnd = random.Random(f"{spec['seed']}:C01:{shard}:{c}")
         mode = rnd.choice(MODES)
         mt = rand_mt(rnd, FMsg)
-        body = msggen.gen_body(rnd, tab, kmax=spec["kmax"])
+        use = env
+        if c % 4 == 3:
+            use = denv
+            acc.add("dialect_protocol_cases")
+        body = msggen.gen_body(rnd, use[2], kmax=spec["kmax"])
         n0 = rnd.choice([1, 2, 9, 10, 99, 1000, 10 ** 6, 2 ** 31, 2 ** 40, rnd.randrange(1, 10 ** 9)])
         carried = rnd.choice([1, 5, n0, n0 - 1 if n0 > 1 else 3, 10 ** 7, rnd.randrange(1, 10 ** 6)])
-        run_case(acc, env, body, mt, mode, n0, carried, cid, None)
+        run_case(acc, use, body, mt, mode, n0, carried, cid, None)
     acc.reach_obj.stop()
